@@ -266,7 +266,7 @@ func ruleDimensionCaps(c *core.Ctx) {
 			o.Fail("processSOS has no progressive work cap")
 			return
 		}
-		o.Require(strings.ReplaceAll(core.ExprStr(cap.Cond.Expr), " ", "") == "d.progVisits>maxProgPasses*d.totalProgBlocks", "the cap is %s", core.ExprStr(cap.Cond.Expr))
+		o.Shape(strings.ReplaceAll(core.ExprStr(cap.Cond.Expr), " ", "") == "d.progVisits>maxProgPasses*d.totalProgBlocks", "the cap is %s", core.ExprStr(cap.Cond.Expr))
 		conds := dominatingConds(g, cap)
 		o.Fact("cap evaluated under %v", conds)
 		for _, cnd := range conds {
@@ -329,7 +329,7 @@ func ruleChainCap(c *core.Ctx) {
 			o.Fail("no chain-length cap")
 			return
 		}
-		o.Require(strings.ReplaceAll(core.ExprStr(cap.Cond.Expr), " ", "") == "len(f)>maxFilterChainLength", "cap condition is %s", core.ExprStr(cap.Cond.Expr))
+		o.Shape(strings.ReplaceAll(core.ExprStr(cap.Cond.Expr), " ", "") == "len(f)>maxFilterChainLength", "cap condition is %s", core.ExprStr(cap.Cond.Expr))
 		o.Require(c.Prog.ConstInt("pdf", "maxFilterChainLength") == 8, "the cap is %d, the documented limit is 8", c.Prog.ConstInt("pdf", "maxFilterChainLength"))
 		n := 0
 		for _, cv := range callVertices(g, "pdf.MakeFilter") {
